@@ -49,7 +49,9 @@ def enc(v):
 class Reply(object):
     def __init__(self, cmd, arg2):
         self.cmd_rc = 0x80
-        self.arg1 = 1
+        # every command succeeds: an allocation returns a word aligned address / a non-zero table index,
+        # a count returns 1 (= the one core the harness loads)
+        self.arg1 = {int(consts.SCPCommands.alloc_free): 0x60000100, int(consts.SCPCommands.signal): 1}.get(cmd, 0)
         self.arg2 = 256
         self.arg3 = 0
         n = 64
@@ -113,6 +115,8 @@ def entry():
 def materialise(cls, method, name, v):
     """Python object for a value of the case.  Integers, None and booleans are themselves, except where the
     parameter is an enumeration given by name in normal use; a token is an object fit for that parameter."""
+    if isinstance(v, dict) and "seq" in v:
+        return list(v["seq"])
     if isinstance(v, dict):
         k = v["t"]
         if name == "data":
@@ -130,7 +134,10 @@ def materialise(cls, method, name, v):
         if name == "entries":
             return [entry()]
         if name == "state":
-            return "wait" if cls == "MC" else bool(k % 2)
+            if cls != "MC":
+                return bool(k % 2)
+            # count_cores_in_state accepts one state or any iterable of states
+            return {0: "wait", 1: ["wait", "run"], 2: ("sync0", "sync1", "idle"), 3: "run"}[k % 4]
         if name == "action":
             return bool(k % 2)
         if name == "address":
